@@ -164,7 +164,13 @@ func (v Value) IsNaN() bool {
 		return false
 	}
 
-	return math.IsNaN(v.float64())
+	// Converting an object runs its valueOf/toString, which can throw: a value
+	// that cannot be converted to a number is reported as NaN.
+	isNaN := true
+	catchPanic(func() { //nolint:errcheck, gosec
+		isNaN = math.IsNaN(v.float64())
+	})
+	return isNaN
 }
 
 // IsString will return true if value is a string (primitive).
